@@ -56,8 +56,11 @@ def explore_entry(mod, entry, jobs=1, deadline=None, path_budget=None, max_steps
     eng.work = []
     pending = [st0]
     rounds = 0
+    t_exp = time.time()
     while pending and len(pending) < want and rounds < 10000:
         rounds += 1
+        if len(pending) >= 2 and (rounds > 4 * want or time.time() - t_exp > 4.0):
+            break  # the tree is narrow near the root: hand out what there is
         # take the shallowest state, run it until it forks (or ends)
         pending.sort(key=lambda x: x.depth)
         st = pending.pop(0)
